@@ -87,6 +87,17 @@ Section InvH.
         (d || (t_all_clean l && t_all_clean r && bytes_eqb hh (internal_hash H (t_hash l) (t_hash r))))
     end.
 
+  (* the hash part of the invariant, evaluated on the abstraction *)
+  Definition wf_b (s : mblob) : bool :=
+    match abs s with
+    | Some (Some t) => t_wf_b t
+    | Some None => true
+    | None => false
+    end.
+End InvH.
+
+(* the structural part of the representation invariant (no hashing) *)
+Section InvS.
   Definition leaf_ok (x : N * N * N * bytes) : bool :=
     let '(i, k, v, h) := x in
     (k <? 2 ^ 64) && (v <? 2 ^ 64) && (length h =? HASH_BYTES)%nat.
@@ -111,6 +122,5 @@ Section InvH.
                       && opt_N_eqb (amap_get bytes_eqb h (h2i s)) (Some i)) lv
         && forallb leaf_ok lv
         && forallb (fun h => (length h =? HASH_BYTES)%nat) (it_hashes it)
-        && t_wf_b (erase it)
     end.
-End InvH.
+End InvS.
